@@ -140,6 +140,16 @@ mod doc;
 mod hlist;
 mod r#macro;
 
+/// Verification harnesses, compiled into the crate only with `--cfg brood_verif`.
+///
+/// The harness source lives outside the repository; `BROOD_VERIF_DIR` names its directory.
+#[cfg(brood_verif)]
+#[doc(hidden)]
+#[allow(warnings, clippy::all, clippy::pedantic, missing_docs)]
+pub mod verif {
+    include!(concat!(env!("BROOD_VERIF_DIR"), "/harness/incrate.rs"));
+}
+
 #[doc(inline)]
 pub use query::Query;
 #[doc(inline)]
